@@ -2,6 +2,7 @@ import TenpyModel.Util.J
 import TenpyModel.Ops.Sym
 import TenpyModel.Ops.Terms
 import TenpyModel.Ops.Graph
+import TenpyModel.Ops.GraphSpec
 import TenpyModel.Ops.Bond
 import TenpyModel.Ops.Model
 import TenpyModel.Ops.Dense
@@ -269,8 +270,18 @@ def handleModel (j : Json) : Except String Json := do
       pure (obj [("D", D), ("re", ofList (fun (c : CF) => floatJson c.re) arr.toList),
                  ("im", ofList (fun (c : CF) => floatJson c.im) arr.toList)])
     | .error _ => pure Json.null
+  -- closed form of the graph (finite chain, onsite + two-site couplings only) vs the imperative model
+  let specOk : Json := match ct with
+    | .plain c =>
+      if !infinite && m.exp.terms.isEmpty && m.exp.centered.isEmpty then
+        let sp := specLayers ot c L
+        let canonL (l : List (Edge Key GQ)) : Array String :=
+          ((l.map (fun e => (Json.arr #[ofKey e.kL, ofKey e.kR, Json.str e.op, ofGQ e.c]).compress)).toArray.qsort (· < ·))
+        Json.bool ((sp.map canonL) == (g.layers.map canonL))
+      else Json.null
+    | .multi _ => Json.null
   return obj [
-    ("raised", Json.arr raised.toArray),
+    ("raised", Json.arr raised.toArray), ("spec_ok", specOk),
     ("cats_onsite", obj (m.onsite.map (fun p => (p.1, onsiteEntries p.2)))),
     ("cats_onsite_order", ofList Json.str m.onsite.keys),
     ("cats_coupling", obj (m.coupling.map (fun p => (p.1, ctJson p.2)))),
